@@ -316,3 +316,18 @@ def workdir(pid):
     d = os.path.join(WORK, pid)
     os.makedirs(d, exist_ok=True)
     return d
+
+
+def parallel(fn, items, max_workers=6):
+    """Run fn(item) for all items on a thread pool (the work is done in subprocesses); returns results in order."""
+    from concurrent.futures import ThreadPoolExecutor
+    with ThreadPoolExecutor(max_workers=max_workers) as ex:
+        return list(ex.map(fn, items))
+
+
+def rejected_event(tlc_out):
+    """Extracts (line number, event name) from a 'TRACE-REJECTED at line' message of a trace spec."""
+    m = re.search(r'TRACE-REJECTED at line",\s*(\d+)', tlc_out)
+    line = int(m.group(1)) if m else -1
+    m2 = re.search(r'ev \|-> "(\w+)"', tlc_out[m.end():] if m else tlc_out)
+    return line, (m2.group(1) if m2 else "?")
